@@ -751,15 +751,28 @@ def _derived(index, attr_cls):
         init = cls.methods.get('__init__')
         if init is None:
             continue
+        # locals of the constructor stand for what they were computed from
+        ldefs = {}
+        for sub in K.walk_no_nested(init.node):
+            if isinstance(sub, ast.Assign) and len(sub.targets) == 1 and \
+                    isinstance(sub.targets[0], ast.Name):
+                ldefs.setdefault(sub.targets[0].id, []).append(sub.value)
         for sub in K.walk_no_nested(init.node):
             if isinstance(sub, ast.Assign) and len(sub.targets) == 1 and \
                     isinstance(sub.targets[0], ast.Attribute) and \
                     K.name_is(sub.targets[0].value, 'self'):
                 srcs = set()
-                for leaf in ast.walk(sub.value):
-                    if isinstance(leaf, ast.Attribute) and \
-                            K.name_is(leaf.value, 'self'):
-                        srcs.add(leaf.attr)
+                todo, seen = [sub.value], set()
+                while todo:
+                    expr = todo.pop()
+                    for leaf in ast.walk(expr):
+                        if isinstance(leaf, ast.Attribute) and \
+                                K.name_is(leaf.value, 'self'):
+                            srcs.add(leaf.attr)
+                        if isinstance(leaf, ast.Name) and \
+                                leaf.id in ldefs and leaf.id not in seen:
+                            seen.add(leaf.id)
+                            todo.extend(ldefs[leaf.id])
                 if srcs:
                     out[(cls.name, sub.targets[0].attr)] = srcs
     return out
